@@ -140,9 +140,10 @@ def units():
                 loops = {}
                 if present and subset:
                     # (loop ordinals in source order: 1 host keys, 2 host-key sizes, 3 key exchanges, 4 ciphers, 5 MACs, 6 modulus sizes)
-                    for i, (lst, pol) in zip((1, 3, 4, 5), (('kex.key_algorithms', 'self._host_keys'), ('kex.kex_algorithms', 'self._kex'), ('kex.server.encryption', 'self._ciphers'),
-                                                            ('kex.server.mac', 'self._macs'))):
-                        loops[i] = dict(invariant=["ret == at_entry.ret", "all_in(%s[:_k], %s)" % (lst, pol)], use_head=["all_in_at(%s, %s, _k)" % (lst, pol)])
+                    for i, var, (lst, pol) in zip((1, 3, 4, 5), ('hostkey_t', 'kex_t', 'cipher_t', 'mac_t'),
+                                                  (('kex.key_algorithms', 'self._host_keys'), ('kex.kex_algorithms', 'self._kex'), ('kex.server.encryption', 'self._ciphers'),
+                                                   ('kex.server.mac', 'self._macs'))):
+                        loops[i] = dict(header='for %s in %s' % (var, lst), invariant=["ret == at_entry.ret", "all_in(%s[:_k], %s)" % (lst, pol)], use_head=["all_in_at(%s, %s, _k)" % (lst, pol)])
                 U.append(Unit(Contract('Policy.evaluate', setup=setup_evaluate, raises={}, loops=loops,
                                        cases=[{'$present': present, '$subset': subset, '$sizes': sizes}], ensures=ens), harness=None))
     return U
